@@ -484,3 +484,30 @@ Qed.
 Lemma mep_never_stale2 U pc : sym_id U -> forall x h x',
   mep_reach2 U pc x -> signature hash_mep x = Some (h, x') -> hash_mep (content x) = Some h.
 Proof. intros HU x h x' Hr. apply (mep_never_stale pc). apply (mep_reach2_reach U pc HU). exact Hr. Qed.
+
+Lemma cse_bits_trees U g g' : sym_id U -> typed g -> genome_over U g -> cse_bits g = Some g' ->
+  rows g' = rows g /\ cats g' = cats g /\ best g' = best g /\ typed g' /\ genome_over U g' /\
+  forall f l, option_map canon (tree_of f g' l) = option_map canon (tree_of f g l).
+Proof.
+  intros HU Ht Ho H.
+  exact (cse_genome_trees gene_cmp_bits U (fun _ => True) (fun _ _ _ => I) (gene_cmp_bits_sound U HU)
+           g g' Ht Ho (fun _ _ _ _ => I) H).
+Qed.
+
+Lemma team_never_stale pc t h t' :
+  team_reach pc t -> team_signature t = Some (h, t') ->
+  hash_team (content t) = Some h /\ Forall (cache_ok hash_mep) (content t').
+Proof.
+  intros Hr Hs. apply team_reach_ok in Hr.
+  destruct (team_signature_correct t h t' Hr Hs) as [H1 [_ [H3 _]]]. exact (conj H1 H3).
+Qed.
+
+Lemma team_load_clears pc (t : team) gs t' :
+  team_step pc t (TLoad (Some gs)) = Some t' ->
+  sig_cache t' = None /\ Forall (fun m : mep => sig_cache m = None) (content t') /\
+  map (@content genome) (content t') = gs.
+Proof.
+  intro H. cbn in H. inversion H. subst. cbn. split; [reflexivity|]. split.
+  - rewrite Forall_forall. intros m Hm. apply in_map_iff in Hm. destruct Hm as [g [<- _]]. reflexivity.
+  - rewrite map_map. cbn. apply map_id.
+Qed.
